@@ -64,6 +64,16 @@ Inductive cmd :=
 | CUnknown
 | CBad (mysql : option N).     (* payload whose parser raises before anything else happens *)
 
+Inductive frame :=
+| FConn            (* connection_phase + session.init, inside _start's first try *)
+| FConnErr         (* the ERR write of `except Exception` there *)
+| FRead            (* stream.read() of command_phase *)
+| FHandler         (* the dispatched handler *)
+| FChangeUser      (* inside the try around authenticate() in handle_change_user *)
+| FHandlerErr (waskill : bool)   (* an ERR write inside one of the except clauses *)
+| FKillErr         (* the ERR write of _start's `except CancelledError` *)
+| FClose (reraise : bool).       (* finally: await session.close() *)
+
 (* which handler awaits self.query() *)
 Inductive qctx := QText | QExec (id : N) (cursor : bool) | QFieldList.
 
@@ -81,18 +91,10 @@ Inductive mop :=
 | MClearStmt (id : N) (cursor_too : bool)
 | MDropStmt (id : N)
 | MAuthed | MResetSeq | MQuit
+| MEnter (f : frame)           (* the rest of the plan runs inside another try block of the same handler *)
 | MRead                        (* await self.stream.read() inside authenticate / connection_phase *)
 | MCont (c : qctx).            (* what follows self.query(): decided by the application's outcome *)
 Definition plan := list mop.
-
-Inductive frame :=
-| FConn            (* connection_phase + session.init, inside _start's first try *)
-| FConnErr         (* the ERR write of `except Exception` there *)
-| FRead            (* stream.read() of command_phase *)
-| FHandler         (* the dispatched handler *)
-| FHandlerErr (waskill : bool)   (* an ERR write inside one of the except clauses *)
-| FKillErr         (* the ERR write of _start's `except CancelledError` *)
-| FClose (reraise : bool).       (* finally: await session.close() *)
 
 Inductive why := WRead | WApp (c : call) | WDrain | WSleep | WRow.
 (* where the task is suspended; `incur`: the await sits inside the cursor generator of that statement *)
@@ -323,6 +325,16 @@ Definition throw (s : st) (x : exn) (f : frame) : thrown :=
       | XCancel, None => ToClose (set_seq s 0) true
       | _, _ => Continue s (errplan E_UNKNOWN_ERROR) (FHandlerErr false)
       end
+  | FChangeUser =>
+      (* except AuthenticationFailed: raise / except Exception: ERR, raise AuthenticationFailed;
+         a CancelledError is a BaseException and reaches command_phase's handlers *)
+      match x, kill s with
+      | XAuthFailed, _ => ToClose (set_exec s false) false
+      | XCancel, Some KQ => Continue (set_exec s false) (errplan E_SESSION_WAS_KILLED) (FHandlerErr true)
+      | XCancel, Some KC => Continue (set_seq (set_exec s false) 0) (errplan E_SESSION_WAS_KILLED) FKillErr
+      | XCancel, None => ToClose (set_seq (set_exec s false) 0) true
+      | _, _ => Continue s [MWrite (PErr E_UNKNOWN_ERROR) SZ_ERR true; MRaise XAuthFailed None] FHandler
+      end
   | FHandlerErr _ =>
       (* an exception while the ERR is written leaves command_phase (finally: reset_seq) *)
       let s := set_seq s 0 in
@@ -383,95 +395,132 @@ Definition handler (s : st) (c : cmd) : st * plan :=
       | None => (s, [MRaise (XMysql E_UNKNOWN_PROCEDURE) None])
       end
   | CClose id => (s, [MDropStmt id])
-  | CChangeUser => (set_authed s false, [MApp SGetUser])
+  | CChangeUser => (set_exec (set_authed s false) false, [MEnter FChangeUser; MApp SGetUser])
   | CUnknown => (s, [MRaise (XMysql E_UNKNOWN_COM) None])
   | CBad m => (s, [MRaise (match m with Some cd => XMysql cd | None => XOther end) None])
   end.
 
 (* ---- running a plan up to the next real suspension --------------------------------------------------------- *)
+(* what one micro-operation does *)
+Inductive action :=
+| ActNext (s : st) (o : list out)                                  (* go on with the rest of the plan *)
+| ActSuspend (s : st) (w : why) (ic : option N) (o : list out)     (* the task really yields to the loop here *)
+| ActRaise (s : st) (x : exn) (ic : option N) (o : list out)       (* an exception is raised here *)
+| ActQuit (s : st)                                                 (* `return` out of command_phase *)
+| ActEnter (s : st) (f : frame).
+
+(* await self.drain(): flush the buffer, then writer.drain() *)
+Definition do_drain (s : st) : action :=
+  let '(s1, o1) := flush s in
+  if dead s1 then ActRaise s1 XOther None o1
+  else if paused s1 then ActSuspend s1 WDrain None o1
+  else ActNext s1 o1.
+
+Definition cur_pull (s : st) (id : N) : st :=
+  match find_stmt id (stmts s) with
+  | Some v => set_stmts s (put_stmt id (mk_stmt (match st_cursor v with
+                                                 | Some (_ :: r) => Some r
+                                                 | o => o end) (st_inner v + 1)) (stmts s)) (next_stmt s)
+  | None => s
+  end.
+
+Definition cur_skip_suspend (s : st) (ic : option N) : st :=
+  match ic with
+  | Some id => match find_stmt id (stmts s) with
+               | Some v => set_stmts s (put_stmt id (mk_stmt (match st_cursor v with
+                                                              | Some (ISuspend :: r) => Some r
+                                                              | o => o end) (st_inner v)) (stmts s)) (next_stmt s)
+               | None => s
+               end
+  | None => s
+  end.
+
+Definition exec_op (s : st) (m : mop) : action :=
+  match m with
+  | MWrite p sz d =>
+      let s1 := set_seq (set_buf s (buf s ++ [(seq s, p, sz)]) (handed s)) ((seq s + 1) mod 256) in
+      if d || (B <=? buf_bytes (buf s1)) then do_drain s1 else ActNext s1 []
+  | MDrain => do_drain s
+  | MApp c => ActSuspend s (WApp c) None [OSess c]
+  | MPull => ActNext (inc_pulled s) []
+  | MCurPull id => ActNext (inc_pulled (cur_pull s id)) []
+  | MSleep ic => ActSuspend s WSleep ic []
+  | MRowWait ic => ActSuspend (cur_skip_suspend s ic) WRow ic []
+  | MRaise x ic => ActRaise s x ic []
+  | MSetCursor id items => ActNext (set_stmts s (put_stmt id (mk_stmt (Some items) 0) (stmts s)) (next_stmt s)) []
+  | MClearStmt id _ => ActNext (set_stmts s (put_stmt id (mk_stmt None 0) (stmts s)) (next_stmt s)) []
+  | MDropStmt id => ActNext (set_stmts s (del_stmt id (stmts s)) (next_stmt s)) []
+  | MAuthed => ActNext (set_authed s true) []
+  | MResetSeq => ActNext (set_seq s 0) []
+  | MRead => if eof s then ActRaise s XClosed None [] else ActSuspend s WRead None []
+  | MEnter f' => ActEnter s f'
+  | MCont _ => ActNext s []           (* only meaningful directly after MApp SQuery: see step *)
+  | MQuit => ActQuit s
+  end.
+
+(* what happens when the current plan is exhausted, per frame *)
+Inductive endact :=
+| EFinish (s : st) (exc : bool)
+| EGo (s : st) (k : plan) (f : frame)
+| ESuspRead (s : st)
+| ERaise (s : st) (x : exn).
+
+Definition end_plan (s : st) (f : frame) : endact :=
+  match f with
+  | FConn => EGo (set_phase (set_inited s) Command) [] FRead            (* session.init returned *)
+  | FConnErr => EFinish s true                                          (* `raise` after the ERR *)
+  | FHandler | FChangeUser => EGo (set_seq (set_exec s false) 0) [] FRead   (* finally: reset_seq *)
+  | FHandlerErr wk => EGo (set_seq (if wk then set_kill s None else s) 0) [] FRead
+  | FKillErr => EGo (inc_closes (set_kill s None)) [MApp SClose] (FClose false)
+  | FClose re => EFinish s re
+  | FRead =>
+      (* data = await self.stream.read() *)
+      match inq s with
+      | c :: q =>
+          let s1 := set_seq (set_inq s q) ((seq s + 1) mod 256) in
+          let '(s2, k2) := handler (set_exec s1 true) c in
+          EGo s2 k2 FHandler
+      | [] => if eof s then ERaise s XClosed else ESuspRead s
+      end
+  end.
+
+Definition is_handler (f : frame) : bool := match f with FHandler | FChangeUser => true | _ => false end.
+Definition prepend (o : list out) (r : st * list out) : st * list out := (fst r, o ++ snd r).
+
 Fixpoint run (fuel : nat) (s : st) (k : plan) (f : frame) : st * list out :=
   match fuel with
   | O => (upd_ctl s Stuck, [])
   | S fuel' =>
-    let raise (s : st) (x : exn) (incur : option N) : st * list out :=
-      match throw (kill_cursor s incur) x f with
+    let raise (s : st) (x : exn) (ic : option N) : st * list out :=
+      match throw (kill_cursor s ic) x f with
       | Continue s' k' f' => run fuel' s' k' f'
       | ToClose s' re => run fuel' (inc_closes s') [MApp SClose] (FClose re)
       | Finished s' exc => finish s' exc
       end in
-    (* a point where the task really yields to the loop *)
-    let suspend (s : st) (w : why) (k' : plan) (incur : option N) : st * list out :=
-      if must_cancel s then raise (set_must s false) XCancel incur
-      else (upd_ctl s (Susp w k' f incur), []) in
-    let drain (s : st) (k' : plan) : st * list out :=
-      let '(s1, o1) := flush s in
-      if dead s1 then let '(s2, o2) := raise s1 XOther None in (s2, o1 ++ o2)
-      else if paused s1 then let '(s2, o2) := suspend s1 WDrain k' None in (s2, o1 ++ o2)
-      else let '(s2, o2) := run fuel' s1 k' f in (s2, o1 ++ o2) in
     match k with
     | [] =>
-        match f with
-        | FConn => run fuel' (set_phase (set_inited s) Command) [] FRead     (* session.init returned *)
-        | FConnErr => finish s true
-        | FHandler => run fuel' (set_seq (set_exec s false) 0) [] FRead      (* finally: reset_seq *)
-        | FHandlerErr wk => run fuel' (set_seq (if wk then set_kill s None else s) 0) [] FRead
-        | FKillErr => run fuel' (inc_closes (set_kill s None)) [MApp SClose] (FClose false)
-        | FClose re => finish s re
-        | FRead =>
-            (* data = await self.stream.read() *)
-            match inq s with
-            | c :: q =>
-                let s1 := set_seq (set_inq s q) ((seq s + 1) mod 256) in
-                let '(s2, k2) := handler (set_exec s1 true) c in
-                run fuel' s2 k2 FHandler
-            | [] =>
-                if eof s then raise s XClosed None
-                else suspend s WRead [] None
+        match end_plan s f with
+        | EFinish s' exc => finish s' exc
+        | EGo s' k' f' => run fuel' s' k' f'
+        | ESuspRead s' => (upd_ctl s' (Susp WRead [] f None), [])
+        | ERaise s' x => raise s' x None
+        end
+    | m :: k' =>
+        match exec_op s m with
+        | ActNext s' o => prepend o (run fuel' s' k' f)
+        | ActSuspend s' w ic o => (upd_ctl s' (Susp w k' f ic), o)
+        | ActRaise s' x ic o => prepend o (raise s' x ic)
+        | ActEnter s' f' =>
+            (* only between the try blocks of one handler *)
+            if is_handler f && is_handler f' then run fuel' s' k' f' else (upd_ctl s' Stuck, [])
+        | ActQuit s' =>
+            (* `return` in the handler: finally reset_seq, then _start's finally.  MQuit only occurs in
+               the plan of COM_QUIT, i.e. in FHandler; elsewhere the machine has no such transition *)
+            match f with
+            | FHandler => run fuel' (inc_closes (set_seq (set_exec s' false) 0)) [MApp SClose] (FClose false)
+            | _ => (upd_ctl s' Stuck, [])
             end
         end
-    | MWrite p sz d :: k' =>
-        let s1 := set_seq (set_buf s (buf s ++ [(seq s, p, sz)]) (handed s)) ((seq s + 1) mod 256) in
-        if d || (B <=? buf_bytes (buf s1)) then drain s1 k'
-        else run fuel' s1 k' f
-    | MDrain :: k' => drain s k'
-    | MApp c :: k' =>
-        let '(s1, o1) := suspend s (WApp c) k' None in (s1, OSess c :: o1)
-    | MPull :: k' => run fuel' (inc_pulled s) k' f
-    | MCurPull id :: k' =>
-        let s1 := match find_stmt id (stmts s) with
-                  | Some v => set_stmts s (put_stmt id (mk_stmt (match st_cursor v with
-                                                                 | Some (_ :: r) => Some r
-                                                                 | o => o end) (st_inner v + 1)) (stmts s)) (next_stmt s)
-                  | None => s
-                  end in
-        run fuel' (inc_pulled s1) k' f
-    | MSleep ic :: k' => suspend s WSleep k' ic
-    | MRowWait ic :: k' =>
-        (* the source's __anext__ suspends; for a cursor the consumed ISuspend is dropped from it *)
-        let s1 := match ic with
-                  | Some id => match find_stmt id (stmts s) with
-                               | Some v => set_stmts s (put_stmt id (mk_stmt (match st_cursor v with
-                                                                              | Some (ISuspend :: r) => Some r
-                                                                              | o => o end) (st_inner v)) (stmts s)) (next_stmt s)
-                               | None => s
-                               end
-                  | None => s
-                  end in
-        suspend s1 WRow k' ic
-    | MRaise x ic :: _ => raise s x ic
-    | MSetCursor id items :: k' =>
-        run fuel' (set_stmts s (put_stmt id (mk_stmt (Some items) 0) (stmts s)) (next_stmt s)) k' f
-    | MClearStmt id _ :: k' =>
-        run fuel' (set_stmts s (put_stmt id (mk_stmt None 0) (stmts s)) (next_stmt s)) k' f
-    | MDropStmt id :: k' => run fuel' (set_stmts s (del_stmt id (stmts s)) (next_stmt s)) k' f
-    | MAuthed :: k' => run fuel' (set_authed s true) k' f
-    | MResetSeq :: k' => run fuel' (set_seq s 0) k' f
-    | MRead :: k' =>
-        if eof s then raise s XClosed None else suspend s WRead k' None
-    | MCont _ :: k' => run fuel' s k' f     (* only meaningful directly after MApp SQuery: see step *)
-    | MQuit :: _ =>
-        (* `return` inside the handler's try: finally reset_seq, then _start's finally *)
-        run fuel' (inc_closes (set_seq (set_exec s false) 0)) [MApp SClose] (FClose false)
     end
   end.
 
@@ -479,6 +528,19 @@ Fixpoint run (fuel : nat) (s : st) (k : plan) (f : frame) : st * list out :=
    bounded by the sizes of their own data (cursor items, parameter definitions) *)
 Definition stmts_weight (s : st) : nat :=
   fold_left (fun a kv => a + match st_cursor (snd kv) with Some l => length l | None => O end)%nat (stmts s) O.
+(* cursors that the plan itself is going to install *)
+Fixpoint plan_weight (k : plan) : nat :=
+  match k with
+  | [] => O
+  | MSetCursor _ items :: r => (length items + plan_weight r)%nat
+  | _ :: r => plan_weight r
+  end.
+Definition cmd_cost_w (w : nat) (c : cmd) : nat :=
+  match c with
+  | CFetch _ _ _ => (5 * w + 16)%nat
+  | CPrepare _ sz => (length (sz_coldef sz) + 16)%nat
+  | _ => 16%nat
+  end.
 Definition cmd_cost (s : st) (c : cmd) : nat :=
   match c with
   | CFetch _ _ _ => 5 * stmts_weight s + 16
@@ -486,7 +548,7 @@ Definition cmd_cost (s : st) (c : cmd) : nat :=
   | _ => 16
   end.
 Definition FUEL (s : st) (k : plan) : nat :=
-  4 * (length k + fold_left (fun a c => a + cmd_cost s c)%nat (inq s) O) + 64.
+  4 * (length k + fold_left (fun a c => a + cmd_cost_w (stmts_weight s + plan_weight k) c)%nat (inq s) O) + 64.
 Definition go (s : st) (k : plan) (f : frame) := run (FUEL s k) s k f.
 
 Definition raise_at (s : st) (x : exn) (f : frame) (incur : option N) : st * list out :=
@@ -528,10 +590,9 @@ Definition auth_plan (d : adecision) (change_user : bool) : plan :=
   | AMore => [MWrite PAuthMore SZ_OK true; MRead]
   | ASuccess =>
       MAuthed :: MWrite (POk false 0) SZ_OK true ::
-      (if change_user then [MApp SReset] else [MResetSeq; MApp SInit])
+      (if change_user then [MEnter FHandler; MApp SReset] else [MResetSeq; MApp SInit])
   end.
 
-Definition is_handler (f : frame) : bool := match f with FHandler => true | _ => false end.
 
 Definition step (s : st) (e : ev) : st * list out :=
   match ctl_ s with
@@ -593,7 +654,7 @@ Definition step (s : st) (e : ev) : st * list out :=
     | EvAuthReply d =>
         match phase s, w, f with
         | InExchange _, WRead, FConn => go (set_seq s ((seq s + 1) mod 256)) (auth_plan d false ++ k) f
-        | Command, WRead, FHandler => go (set_seq s ((seq s + 1) mod 256)) (auth_plan d true ++ k) f
+        | Command, WRead, FChangeUser => go (set_seq s ((seq s + 1) mod 256)) (auth_plan d true ++ k) f
         | _, _, _ => (s, [])
         end
     | EvDecide d =>
